@@ -675,8 +675,22 @@ func (e2eFamily) Gen(n int, seed int64, mode, tier string) []interface{} {
 						s.add(e2eOp{Op: "send", C: "dying", P: "disc"})
 						s.gossipAll()
 					}
+					var surv []int
 					for nn := 0; nn < nodes; nn++ {
 						if nn != host {
+							surv = append(surv, nn)
+						}
+					}
+					if len(surv) == 2 && len(s.in.Ops)%2 == 0 {
+						// two survivors, and the first one's broadcasts reach the second before it notices
+						// the failure itself - within the three seconds for which the first keeps the session
+						// records: the second still lists the sessions and publishes their wills too
+						s.add(e2eOp{Op: "peer_notice", N: surv[0], Src: host})
+						s.add(e2eOp{Op: "gossip", Src: surv[0], N: surv[1]})
+						s.add(e2eOp{Op: "peer_notice", N: surv[1], Src: host})
+						s.add(e2eOp{Op: "peer_reap", Src: host, Peers: surv})
+					} else {
+						for _, nn := range surv {
 							s.add(e2eOp{Op: "peer_leave", N: nn, Src: host})
 						}
 					}
@@ -821,6 +835,31 @@ func corpusScript(mode string, i int) *e2eInput {
 		s.add(e2eOp{Op: "send", C: "both", P: "ping"})
 		s.add(e2eOp{Op: "sweep", N: 0})
 		s.checks()
+		return &s.in
+	case mode == "wills" && i < 2:
+		// a host with two will-bearing sessions fails; the first survivor's broadcasts reach the
+		// second survivor before that one notices the failure itself (inside the three seconds for
+		// which a survivor keeps the failed host's session records): both survivors publish the wills,
+		// each to its own subscribers
+		s := newScript(nil, 3)
+		mp := []string{"", "ta"}[i]
+		s.connect(0, "w0", "c-w0", mp, 60, nil)
+		s.sub("w0", []string{"will/#"}, []int{0})
+		s.connect(1, "w1", "c-w1", mp, 60, nil)
+		s.sub("w1", []string{"will/+", "#"}, []int{0, 0})
+		s.connect(2, "w2", "c-w2", mp, 60, nil)
+		s.sub("w2", []string{"#"}, []int{0})
+		s.connect(2, "dying", "c-dying", mp, 60, &jPub{T: "will/t", P: "gone", Q: 0})
+		s.connect(2, "dying2", "c-dying2", mp, 60, &jPub{T: "will/u", P: "gone too", Q: int32(i), R: i == 1})
+		s.gossipAll()
+		s.add(e2eOp{Op: "peer_notice", N: 0, Src: 2})
+		s.add(e2eOp{Op: "gossip", Src: 0, N: 1})
+		s.add(e2eOp{Op: "peer_notice", N: 1, Src: 2})
+		s.add(e2eOp{Op: "peer_reap", Src: 2, Peers: []int{0, 1}})
+		s.add(e2eOp{Op: "gossip", Src: 0, N: 1})
+		s.add(e2eOp{Op: "gossip", Src: 1, N: 0})
+		s.add(e2eOp{Op: "check", N: 0})
+		s.add(e2eOp{Op: "check", N: 1})
 		return &s.in
 	case mode == "lifecycle" && i == 1:
 		// the same with the session lost instead of disconnected, and the last remembered filter removed first
